@@ -5,7 +5,7 @@
    number of events; every step is one shared-memory access or one lock / Event / pipe operation of
    the real source).  [reachable m s] = s is reached from the initial state by some interleaving. *)
 From Coq Require Import List Arith Bool.
-From Circ Require Import Model.Wake Proofs.WakeP.
+From Circ Require Import Model.Wake Proofs.WakeInvP Proofs.WakeP.
 Import ListNotations.
 
 (* Safety form of "fire() returning implies the loop dispatches that event without needing a timeout":
@@ -24,7 +24,7 @@ Theorem C03_wake_in_flight : forall m s, reachable m s -> blocked s = true ->
   forall i k, In (EvF i k) (pending s) ->
   S k = fapp (fts s i) /\
   (exists d, lock s = Some (S i, d)) /\
-  exists r, fp (fts s i) = FRed (cur s) r /\ r <> RRel /\ (tlc s = Zero -> fl_post (fp (fts s i)) = true).
+  exists r, fp (fts s i) = FRed (cur s) r /\ r <> RRel.
 Proof. exact blocked_wake_in_flight. Qed.
 Print Assumptions C03_wake_in_flight.
 
